@@ -402,6 +402,8 @@ def client_script_case(ctx, script: list, prefixes: tuple[str, str] = ("in", "ou
             if kind == "msg":
                 uid += 1
                 payload = op[1] if isinstance(op, tuple) and len(op) > 1 else f"u{uid}"
+                if isinstance(op, tuple) and len(op) > 2:
+                    payload = payload * int(op[2])  # ("msg", text, repeat): big payloads without big case records
                 # broker-side attributes of a delivery that must not matter: QoS of the delivery, RETAIN bit
                 client.deliver(f"{prefixes[0]}/1/0/1/0/{uid}", payload.encode(), qos=uid % 2, retain=(uid % 3 == 0))
                 if not dead:
@@ -469,7 +471,7 @@ def client_script_case(ctx, script: list, prefixes: tuple[str, str] = ("in", "ou
         waiting = log.get("waiting_for")
         key = "mqtt-deaf-after-binary" if any(e == ("error", "undecodable") for e in log["expected"][:len(log["reads"]) + 1]) \
             else "mqtt-deaf"
-        ctx.violation(key, f"script {case['script']}: a read for {waiting!r} can never complete (logical deadlock: nothing is "
+        ctx.violation(key, f"script {case['script']}: a read for {waiting!r:.100} can never complete (logical deadlock: nothing is "
                            f"scheduled and the receive path is silent); reads so far {log['reads']!r:.160}", case)
         return
     for key, what in log["problems"]:
@@ -477,7 +479,7 @@ def client_script_case(ctx, script: list, prefixes: tuple[str, str] = ("in", "ou
     for (want_kind, want), (kind, value) in zip(log["expected"], log["reads"]):
         if want_kind == "line":
             if kind != "line" or value != want:
-                ctx.violation("delivery-order-or-count", f"script {case['script']}: read {value!r:.80}, expected {want!r:.80}", case)
+                ctx.violation("delivery-order-or-count", f"script {case['script']!r:.300}: read {value!r:.80}, expected {want!r:.80}", case)
                 return
         else:
             if kind != "error" or not isinstance(value, TransportError):
@@ -1132,6 +1134,15 @@ def run(ctx) -> None:
             if "/" not in safe and "+" not in safe and "#" not in safe and safe.strip():
                 arun(mapping_case(ctx, (safe + "-in", safe + "-out"), VERSIONS[i % 5], (7, 0, 1, 0, 2, "v")))
             client_script_case(ctx, [("msg", safe), "read", ("msg", "plain"), ("msg", safe + " 2.3.2"), "read", "read"])
+        # payload sizes: a few MB always (MQTT allows 256 MB); numeric constants of the code under test that the reference
+        # tree does not have and that look like byte counts are crossed by one byte
+        big_sizes = sorted({ctx.pick(2_500_000, 20_000_000), 70_000,
+                            *(int(n) + 1 for n in codedict.novel_numbers() if 1000 <= n <= 64_000_000)})
+        for i, size in enumerate(big_sizes):
+            if ctx.mine(i + 3):
+                ctx.clause("big-payload")
+                ctx.obs(f"big-payload-bytes:{size}")
+                client_script_case(ctx, [("msg", "b", size), ("msg", "after"), "read", "read", ("msg", "c", size // 2), "read"])
         for i in range(ctx.pick(1500, 400000) // ctx.shard_count):
             prefixes = rng.choice(PREFIXES)
             arun(mapping_case(ctx, prefixes, rng.choice(VERSIONS), (*gens.random_wellformed(rng), gens.random_payload(rng))))
